@@ -111,7 +111,10 @@ def case_tiled(ctx, c):
     coords = [c, "tiled"]
     ctx.case("tiled:" + icls, a, size, rname, trivial=n < 2)
     ctx.sample({"fn": "tiled_choice", "a": a.tolist(), "size": size, "rng": rname}) if c % 97 == 0 else None
-    ok, out = guarded(ctx, "tiled", icls, coords, lambda: tiled_choice(a, size, replace=False, rng=rng))
+    pw = None
+    if g.random() < 0.35:        # explicit option weights for the incomplete last set (still without replacement)
+        pw = g.uniform(0.1, 1.0, n); pw = pw / pw.sum(); icls += "/weighted remainder"
+    ok, out = guarded(ctx, "tiled", icls, coords, lambda: tiled_choice(a, size, replace=False, p=pw, rng=rng))
     if ok:
         O.check_tiled(ctx, a, size, out, icls, coords)
 
